@@ -152,6 +152,56 @@ def build(c: Ctx, terms) -> Any:
 LO, HI = Fraction(1, 10**250), Fraction(10) ** 250
 
 
+PROVENANCES = ("fresh", "used", "neg-of-used", "abs-of-used", "pos-of-used", "times-one-of-used")
+
+
+def provenance(mag, unit, other=None) -> int:
+    """a deterministic choice of how the operand is obtained, derived from the operand itself so
+    that every case replays the same way"""
+    import zlib
+
+    try:
+        desc = (sorted((f.name or "?", e) for f, e in unit.factors.items()), unit.prefix.base, repr(unit.prefix.exponent))
+    except Exception:  # noqa -- a unit the tree under test has damaged: any stable choice will do
+        desc = None
+    return zlib.crc32(repr((repr(mag), desc)).encode()) % len(PROVENANCES)
+
+
+def quantity(mag, unit, other=None, prov=None, classes=None):
+    """The quantity mag*unit -- freshly written, or obtained from an object that has already
+    been compared, added and converted, through unary operators or a multiplication by one.
+    What an operand has been used for before, and which operator produced it, must not matter to
+    any later operation on it (state kept on instances is the library's business)."""
+    if prov is None:
+        prov = provenance(mag, unit, other)
+    name = PROVENANCES[prov % len(PROVENANCES)]
+    if classes is not None:
+        classes.append(f"operand:{name}")
+    if name == "fresh":
+        return mag * unit
+
+    def use(q):
+        for f in (lambda: q == q, lambda: q == mag * unit, lambda: q + q, lambda: q < q,
+                  lambda: q.in_unit(unit), lambda: other is not None and q.in_unit(other), lambda: hash(q), lambda: str(q)):
+            try:
+                f()
+            except Exception:  # noqa -- whatever this raises is another clause's business
+                pass
+        return q
+
+    if name == "used":
+        return use(mag * unit)
+    if name == "neg-of-used":
+        return -use((-mag) * unit)
+    if name == "abs-of-used":
+        if mag >= 0:
+            return abs(use((-mag) * unit))
+        return -abs(use(mag * unit))
+    if name == "pos-of-used":
+        return +use(mag * unit)
+    return use(mag * unit) * 1
+
+
 def range_ok(sizes, mag, *units) -> bool:
     """False when a natural intermediate of the computation -- the magnitude or the size of
     any of the units expressed in root units -- leaves the range in which doubles keep
